@@ -189,7 +189,9 @@ def _line_infinite_cylinder_intersection(a, b, r, n):
     '''
     nxa = sc.cross(n, a)
     nxa_square = sc.dot(nxa, nxa)
-    parallel_to_cylinder = nxa_square == sc.scalar(0.0, unit=nxa.unit)
+    # n and a are unit vectors. Below sqrt(eps) the direction of their cross product
+    # is dominated by rounding errors; treat such lines as parallel to the cylinder.
+    parallel_to_cylinder = nxa_square < sc.scalar(1e-16, unit=nxa_square.unit)
     s2 = nxa_square * r**2 - sc.dot(b, nxa) ** 2
     s = sc.sqrt(s2)
     m = sc.dot(nxa, sc.cross(b, a))
